@@ -136,12 +136,14 @@ impl DnsCache {
 
     /// Returns the list of instances that has `host` as its hostname.
     pub(crate) fn get_instances_on_host(&self, host: &str) -> Vec<String> {
+        // Host names are compared without regard to case, as everywhere else in the cache.
+        let host_lower = host.to_lowercase();
         self.srv
             .iter()
             .filter_map(|(instance, srv_list)| {
                 if let Some(item) = srv_list.first() {
                     if let Some(dns_srv) = item.record.any().downcast_ref::<DnsSrv>() {
-                        if dns_srv.host() == host {
+                        if dns_srv.host().to_lowercase() == host_lower {
                             return Some(instance.clone());
                         }
                     }
